@@ -211,21 +211,50 @@ enum Outcome {
     Ok(AigOwned, Vec<(u64, bool, Option<u64>)>, AigOwned),
     Err(&'static str, u64),
     Panic(String),
+    /// `Renumber::new` + accessors disagrees with `renumber_aig`.
+    EntryPointsDisagree(String),
 }
 
 fn renumber<L: Lit>(c: &Case, probe: &[u64]) -> Outcome {
     let aig: Aig<L> = to_aig(&c.aig);
-    let cfg = RenumberConfig::default().trim(c.trim).structural_hash(c.strash).const_fold(c.fold);
-    let r = catch_unwind(AssertUnwindSafe(|| Renumber::<L>::renumber_aig(cfg, &aig)));
+    let make_cfg = || RenumberConfig::default().trim(c.trim).structural_hash(c.strash).const_fold(c.fold);
+    let r = catch_unwind(AssertUnwindSafe(|| Renumber::<L>::renumber_aig(make_cfg(), &aig)));
     match r {
         Err(p) => Outcome::Panic(panic_message(&p)),
         Ok(Err(e)) => match e {
+            _ if !matches!(catch_unwind(AssertUnwindSafe(|| Renumber::<L>::new(make_cfg(), &aig).is_err())), Ok(true)) => {
+                Outcome::EntryPointsDisagree("renumber_aig rejects a graph that Renumber::new accepts (or Renumber::new panicked)".into())
+            }
             AigStructureError::LitAlreadyDefined { lit } => Outcome::Err("double", lit.code() as u64),
             AigStructureError::LitNotDefined { lit } => Outcome::Err("undefined", lit.code() as u64),
             AigStructureError::FoundCycle { lit } => Outcome::Err("cycle", lit.code() as u64),
         },
         Ok(Ok((ordered, ren))) => {
             let ordered: OrderedAig<L> = ordered;
+            // the other public entry point: Renumber::new, then the accessors
+            match catch_unwind(AssertUnwindSafe(|| Renumber::<L>::new(make_cfg(), &aig))) {
+                Ok(Ok(other)) => {
+                    if other.and_gates() != &ordered.and_gates[..] {
+                        return Outcome::EntryPointsDisagree(format!(
+                            "Renumber::new(..).and_gates() has {} gates, renumber_aig returned {} (or they differ in content)",
+                            other.and_gates().len(),
+                            ordered.and_gates.len()
+                        ));
+                    }
+                    for &l in probe {
+                        let lit = L::from_code(l as usize);
+                        if other.lit_map().get(lit).map(|m| m.code()) != ren.lit_map().get(lit).map(|m| m.code()) {
+                            return Outcome::EntryPointsDisagree(format!(
+                                "lit_map of Renumber::new(..) sends {l} to {:?}, that of renumber_aig to {:?}",
+                                other.lit_map().get(lit).map(|m| m.code()),
+                                ren.lit_map().get(lit).map(|m| m.code())
+                            ));
+                        }
+                    }
+                }
+                Ok(Err(_)) => return Outcome::EntryPointsDisagree("Renumber::new rejects a graph that renumber_aig accepts".into()),
+                Err(p) => return Outcome::EntryPointsDisagree(format!("Renumber::new panicked: {}", panic_message(&p))),
+            }
             let map = ren.lit_map();
             let mapped = probe
                 .iter()
@@ -302,6 +331,7 @@ pub fn check(c: &Case, obs: &mut Obs) -> CheckResult {
 
     let (ordered, mapped) = match outcome {
         Outcome::Panic(msg) => fail!(sig("panic"), "renumber_aig panicked ({cfg_name}): {msg}"),
+        Outcome::EntryPointsDisagree(why) => fail!(sig("entry-points"), "{why} ({cfg_name}); aig {:?}", a),
         Outcome::Err(kind, lit) => {
             if c.defect.is_empty() {
                 fail!(
